@@ -76,6 +76,22 @@ def gen_plan(seed, tier):
             o['arg'] = dict(o['arg'], prefill=rng.randint(1, 4))
     plan['crash_frac'] = 1.0 if full else 0.34
     plan['crash_seed'] = rng.randrange(1 << 30)
+    # 'solve' path: the run is one Solve(cost, **settings) with the solver-specific settings given ONCE as keywords and a
+    # restart dump every generation; the process dies after generation k and the restored solver is continued by a bare
+    # Solve() -- every setting the uninterrupted run was using has to come out of the restart file
+    r2 = sub_rng(seed, 'plan.c06.solve')
+    if r2.random() < 0.6:
+        plan['paths'].append('solve')
+        sv = plan['solver']
+        if sv in ('DE', 'DE2'):
+            plan['solve_kw'] = {'strategy': r2.choice(['Rand1Bin', 'Rand1Exp', 'Best1Exp', 'RandToBest1Bin', 'Best1Bin', 'RandToBest1Exp']),
+                                'CrossProbability': r2.choice([0.3, 0.5, 0.9, 1.0]), 'ScalingFactor': r2.choice([0.4, 0.8, 1.2])}
+            if plan.get('npop', 4) < 5: plan['npop'] = 5
+        elif sv == 'NM':
+            plan['solve_kw'] = {'adaptive': r2.random() < 0.6, 'radius': r2.choice([0.05, 0.1, 0.3])}
+        else:
+            plan['solve_kw'] = {'xtol': r2.choice([1e-4, 1e-2, 1e-6])}
+        if r2.random() < 0.25: plan['solve_kw'] = {}
     return plan
 
 
@@ -259,6 +275,10 @@ def _run(plan, run, violate, stats):
                 ex.step(orig, j=k + 1)
                 compare(ref_snaps, k + 1, ex.h.snap(orig), violate, 'save', 'original after the restored copy ran')
 
+    # ---------------- one Solve(cost, **settings) with a dump per generation; death after generation k; bare Solve() resumes
+    if 'solve' in plan['paths'] and N >= 3:
+        run_solve_path(plan, run, violate, stats)
+
     # ---------------- periodic dump + crash at an enumerated seam crossing
     crng = sub_rng(plan['crash_seed'], 'crash')
     if 'periodic' in plan['paths'] or 'torn' in plan['paths']:
@@ -335,6 +355,90 @@ def _run(plan, run, violate, stats):
                              save_every=every)
             if ok:
                 continue_and_compare(plan, run, ex, s2, k, ref_snaps, ref_rng, violate, stats, ptag, save_every=every)
+
+
+class _Recorder(object):
+    """harness oracle: at every iteration boundary keep the RNG state and the bytes of the restart file on disk"""
+    def __init__(self, path):
+        self.path = path; self.rng = []; self.dumps = []
+    def on_step(self, h, snap):
+        import os
+        self.rng.append(rng_state())
+        try:
+            with simfs._real_open(self.path, 'rb') as f: self.dumps.append(f.read())
+        except OSError:
+            self.dumps.append(None)
+
+
+def _solve_kwargs(plan):
+    import mystic.strategy as st
+    kw = dict(plan.get('solve_kw') or {})
+    if 'strategy' in kw: kw['strategy'] = getattr(st, kw['strategy'])
+    return kw
+
+
+def run_solve_path(plan, run, violate, stats):
+    from mystic.solvers import LoadSolver
+    N = plan['N']; fs = run.fs
+    splan = dict(plan)
+    splan['midrun'] = []
+    splan['ops'] = plan['ops'] + [{'op': 'set', 'what': 'limits', 'arg': [N - 1, None]},
+                                  {'op': 'set', 'what': 'save', 'arg': {'every': 1, 'file': 'solve.pkl'}}]
+    ex = Exec(run, splan, 'solve-ref')
+    h = ex.h
+    rec = _Recorder(fs.path('solve.pkl'))
+    h.oracles = [rec]
+    run.owner = 'solve-ref'
+    try:
+        h.solver.Solve(h.cost, callback=env.SimCallback(), **_solve_kwargs(plan))
+    except (env.SimCrash, env.SimHang):
+        raise
+    except Exception as e:
+        run.probe('c06.solve_path.reference_raised.%s' % type(e).__name__)
+        return
+    ref = list(h.step_snaps)
+    if len(ref) < 3: return
+    run.probe('c06.solve_path.reference_runs')
+    tags = dict(path='solve', **{('kw_' + k_): v for k_, v in (plan.get('solve_kw') or {}).items()})
+    for k in [k_ for k_ in plan['ks'] if k_ < len(ref) - 1]:
+        blob = rec.dumps[k]
+        if blob is None:
+            violate('restore_failed_to_step', 'no restart file on disk after generation %d although SetSaveFrequency(1) was set' % k, **tags)
+            continue
+        fs.thaw()
+        fs.subdir = 'solve-restore%d' % k
+        path = fs.path('restart.pkl')
+        with simfs._real_open(path, 'wb') as f: f.write(blob)
+        try:
+            s2 = LoadSolver(path)
+        except Exception as e:
+            violate('restore_failed_to_step', 'LoadSolver of the generation-%d restart file raised %s: %s' % (k, type(e).__name__, str(e)[:200]), **tags)
+            continue
+        h2 = engine.Harness(run, splan, [])
+        h2.solvers = {'orig': s2}; h2.cur = 'orig'; h2.passed_cost = True
+        if not compare(ref, k, h2.snap(s2), violate, 'solve', 'restart file of generation %d right after LoadSolver' % k, **{k_: v for k_, v in tags.items() if k_ != 'path'}):
+            continue
+        set_rng_state(rec.rng[k])
+        stats['restores'] += 1
+        run.owner = 'solve-restore%d' % k
+        try:
+            s2.Solve(callback=env.SimCallback())            # bare: no settings repeated
+        except (env.SimCrash, env.SimHang):
+            raise
+        except Exception as e:
+            violate('restore_failed_to_step', 'restored from the generation-%d restart file, a bare Solve() raised %s: %s'
+                    % (k, type(e).__name__, str(e)[:200]), **tags)
+            continue
+        got = list(h2.step_snaps)
+        want = ref[k + 1:]
+        stats['restore_steps'] += len(got)
+        if len(got) != len(want):
+            violate('restore_diverged@generations', 'path=solve: resumed from generation %d the bare Solve() ran %d more iterations, the '
+                    'uninterrupted Solve ran %d more' % (k, len(got), len(want)), **tags)
+            continue
+        for j, sn in enumerate(got):
+            if not compare(ref, k + 1 + j, sn, violate, 'solve', 'continued by a bare Solve()', **{k_: v for k_, v in tags.items() if k_ != 'path'}):
+                break
 
 
 def simplify(plan):
